@@ -14,6 +14,7 @@ inside the user's bounds.
 import bisect
 import copy
 import math
+import os
 
 import numpy as np
 
@@ -700,6 +701,130 @@ def stream_solve(c, n):
 
 
 # ---------------------------------------------------------------------------------------------
+# several sources of bounds: Modelica min/max attributes intersected with the user's bounds()
+
+
+def stream_sources(c, n):
+    """generated Modelica models with min/max/nominal attributes + a user bounds() below
+    ModelicaMixin in the MRO: bounds() and the transcribed lbx/ubx are the intersection"""
+    import shutil
+    import tempfile
+
+    import casadi as ca
+    from rtctools.optimization.collocated_integrated_optimization_problem import (
+        CollocatedIntegratedOptimizationProblem,
+    )
+    from rtctools.optimization.modelica_mixin import ModelicaMixin
+
+    rng = c.rng
+    tmp = tempfile.mkdtemp(prefix="C05_mo_")
+    lines, meta = [], []
+    try:
+        for k in range(n):
+            names = ["x0", "y0", "u0"]
+            att = {}
+            for nm in names:
+                lo = rng.choice([None, -5.0, -1.5, 0.0, -20.0])
+                hi = rng.choice([None, 20.0, 3.0, 7.5, 1.0])
+                nom = rng.choice([None, 10.0, 0.1, 2.0])
+                att[nm] = (lo, hi, nom)
+
+            def attrs(nm, extra=""):
+                lo, hi, nom = att[nm]
+                a = [extra] if extra else []
+                if lo is not None:
+                    a.append("min=%r" % lo)
+                if hi is not None:
+                    a.append("max=%r" % hi)
+                if nom is not None:
+                    a.append("nominal=%r" % nom)
+                return "(" + ", ".join(a) + ")" if a else ""
+
+            text = ("model B%d\n  Real x0%s;\n  Real y0%s;\n  input Real u0%s;\nequation\n"
+                    "  der(x0) = -0.5 * x0 + u0;\n  y0 = 2.0 * x0;\nend B%d;\n"
+                    % (k, attrs("x0"), attrs("y0"), attrs("u0", "fixed=false"), k))
+            with open(os.path.join(tmp, "B%d.mo" % k), "w") as f:
+                f.write(text)
+            user = {}
+            for nm in names:
+                if rng.random() < 0.7:
+                    user[nm] = (rng.choice([-INF, -7.0, -1.0, 0.5, -5.0]), rng.choice([INF, 12.0, 2.0, 20.0, 0.75]))
+            sol = S.RecordingSolver()
+            tgrid = [0.0, 1.0, 2.5]
+
+            class UserBounds:
+                def bounds(self, _u=user):
+                    b = super().bounds()
+                    for kk, vv in _u.items():
+                        b[kk] = vv
+                    return b
+
+            class P(ModelicaMixin, UserBounds, CollocatedIntegratedOptimizationProblem):
+                def compiler_options(self):
+                    o = super().compiler_options()
+                    o["cache"] = False
+                    return o
+
+                def times(self, variable=None, _t=tgrid):
+                    return np.array(_t)
+
+                def solver_options(self, _s=sol):
+                    o = super().solver_options()
+                    o["casadi_solver"] = _s
+                    return o
+
+                def objective(self, ensemble_member):
+                    return ca.MX(0)
+
+            case = {"model": text, "user_bounds": user}
+            try:
+                with quiet_fd():
+                    p = P(model_folder=tmp, model_name="B%d" % k, input_folder=tmp, output_folder=tmp)
+                    p.optimize()
+            except Exception as e:
+                c.hit("sources/raise")
+                c.fail("Modelica problem with scalar bounds from two sources could not be transcribed: %s"
+                       % type(e).__name__, case, str(e)[:200])
+                continue
+            c.programs += 1
+            c.hit("sources/ok")
+            rec = sol.calls[0]
+            X = rec["nlp"]["x"]
+            N = X.size1()
+            lbx = np.array(rec["lbx"], dtype=float).ravel()
+            ubx = np.array(rec["ubx"], dtype=float).ravel()
+            b = p.bounds()
+            for nm in names:
+                srcs_lo = [x for x in (att[nm][0], user.get(nm, (None, None))[0]) if x is not None]
+                srcs_hi = [x for x in (att[nm][1], user.get(nm, (None, None))[1]) if x is not None]
+                exp_lo = max(srcs_lo) if srcs_lo else -INF
+                exp_hi = min(srcs_hi) if srcs_hi else INF
+                got = tuple(map(float, b[nm]))
+                c.count(("sources", att[nm][0] is None, att[nm][1] is None, nm in user, att[nm][2] is None))
+                if got != (exp_lo, exp_hi):
+                    c.fail("bounds() is not the intersection of the model's min/max and the user's bounds", case,
+                           {"variable": nm, "expected": [exp_lo, exp_hi], "got": list(got)})
+                idx = np.array(ca.Function("sv", [X], [p.state_vector(nm)])(np.arange(N))).ravel().astype(int)
+                nomv = float(p.variable_nominal(nm))
+                for ix in idx:
+                    if not (close(nomv * lbx[ix], exp_lo, exact=(nomv == 1.0)) and
+                            close(nomv * ubx[ix], exp_hi, exact=(nomv == 1.0))):
+                        c.fail("transcribed box is not the intersection of all bound sources", case,
+                               {"variable": nm, "index": int(ix), "expected": [exp_lo, exp_hi],
+                                "lbx": float(lbx[ix]), "ubx": float(ubx[ix]), "nominal": nomv})
+                        break
+                lines.append(dict(op="intersect", lo=[fr(x) for x in srcs_lo], hi=[fr(x) for x in srcs_hi]))
+                meta.append((case, nm, got))
+        outs = c.model(lines) if lines else []
+        if outs is not None:
+            for mo, (case, nm, got) in zip(outs, meta):
+                if not (same(mo[0], got[0], exact=True) and same(mo[1], got[1], exact=True)):
+                    c.disagree("intersection of bound sources", case, mo, {"variable": nm, "bounds()": list(got)})
+    finally:
+        shutil.rmtree(tmp, ignore_errors=True)
+
+
+# ---------------------------------------------------------------------------------------------
 
 CORPUS = [
     # F11 (fixed in 0f50280): 2-D Timeseries bound of a vector path variable
@@ -772,6 +897,7 @@ def run(c):
             c.hit("hist/" + hk)
     stream_interp(c, c.n(600, 8000))
     stream_solve(c, c.n(10, 60))
+    stream_sources(c, c.n(3, 25))
     c.notes.append("random streams are samples; the unbounded claim is carried by the theorems; the oracle "
                    "re-states the property on the real lbx/ubx of every generated instance")
 
